@@ -38,4 +38,17 @@ let () =
   register "orv" (fun toks -> let (g, r) = grp_of toks in
     match r with [y1; y2; g1; g2; c1; c2; r1; r2; tbl; out] ->
       (code (or_verify (table_hash (table_of_tok tbl)) g (z_of_hex y1) (z_of_hex y2) (z_of_hex g1) (z_of_hex g2) (z_of_hex c1) (z_of_hex c2) (z_of_hex r1) (z_of_hex r2)), out) | _ -> failwith "arity");
+  let pkey_of = function
+    | p :: q :: h :: gs :: rest -> ({ kp = z_of_hex p; kq = z_of_hex q; kh = z_of_hex h; kg = zlist_of_tok gs }, rest)
+    | _ -> failwith "pkey" in
+  register "tmv" (fun toks -> let (k, r) = pkey_of toks in
+    match r with [c; out] -> (tok_of_bool (test_membership k (z_of_hex c)), out) | _ -> failwith "arity");
+  register "pedv" (fun toks -> let (k, r) = pkey_of toks in
+    match r with [c; rr; ms; out] -> (code (ped_verify k (z_of_hex c) (z_of_hex rr) (zlist_of_tok ms)), out) | _ -> failwith "arity");
+  register "skcv" (fun toks -> let (k, r) = pkey_of toks in
+    match r with [le; c; ms; cd; cD; ca; f; z; fD; zD; tbl; out] ->
+      let pr = { s_cd = z_of_hex cd; s_cD = z_of_hex cD; s_ca = z_of_hex ca; s_f = zlist_of_tok f; s_z = z_of_hex z;
+                 s_fD = zlist_of_tok fD; s_zD = z_of_hex zD } in
+      (code (skc_verify (table_hash (table_of_tok tbl)) k (z_of_hex le) (z_of_hex c) (zlist_of_tok ms) pr), out)
+    | _ -> failwith "arity");
   main ()
